@@ -56,6 +56,56 @@ func c17Page(w *World, path string, plan int, nDenoms int) (sdk.Coins, int, erro
 	return out, pages, nil
 }
 
+// c17Gateway: GET requests against the REST routes a client of the bank module would use, and the enterprise routes.
+func c17Gateway(gw *Gateway, denoms []string, want func(string) *big.Int, n int) string {
+	coinOf := func(v interface{}) (string, string) {
+		m, _ := v.(map[string]interface{})
+		d, _ := m["denom"].(string)
+		a, _ := m["amount"].(string)
+		return d, a
+	}
+	for _, base := range []string{"/cosmos/bank/v1beta1/supply", "/mainchain/enterprise/v1/supply"} {
+		url := fmt.Sprintf("%s?pagination.limit=%d", base, n+5)
+		st, body, raw := gw.Get(url)
+		if st != 200 {
+			return fmt.Sprintf("GET %s -> %d %s", url, st, raw)
+		}
+		list, _ := body["supply"].([]interface{})
+		seen := map[string]bool{}
+		for _, it := range list {
+			d, a := coinOf(it)
+			if seen[d] {
+				return fmt.Sprintf("GET %s lists %s twice", url, d)
+			}
+			seen[d] = true
+			if a != want(d).String() {
+				return fmt.Sprintf("GET %s reports %s%s, expected %s%s", url, a, d, want(d), d)
+			}
+		}
+		if len(seen) != n {
+			return fmt.Sprintf("GET %s lists %d of %d denominations", url, len(seen), n)
+		}
+	}
+	for _, d := range denoms {
+		for _, url := range []string{"/cosmos/bank/v1beta1/supply/by_denom?denom=" + d, "/mainchain/enterprise/v1/supply/" + d} {
+			if len(d) > 20 { // ibc/... denominations contain a slash: only the query-parameter form addresses them
+				if url[:10] != "/cosmos/ba" {
+					continue
+				}
+			}
+			st, body, raw := gw.Get(url)
+			if st != 200 {
+				return fmt.Sprintf("GET %s -> %d %s", url, st, raw)
+			}
+			gd, a := coinOf(body["amount"])
+			if gd != d || a != want(d).String() {
+				return fmt.Sprintf("GET %s reports %s%s, expected %s%s", url, a, gd, want(d), d)
+			}
+		}
+	}
+	return ""
+}
+
 func init() {
 	register(Hooks{
 		Prop: "C17",
@@ -195,6 +245,30 @@ func init() {
 						if rev && pr.Key != nil && d > denom {
 							w.Class("c17.reverse-page-from-key-above-native")
 						}
+					}
+				}
+			}
+			// the node's REST gateway (the application's own route registration, served in process): the bank module's
+			// supply endpoints must be answered with the enterprise figures
+			if plan%4 == 0 {
+				gw, _ := w.Notes["c17.gateway"].(*Gateway)
+				if gw == nil {
+					g, err := NewGateway(w.C)
+					if err != nil {
+						w.Class("c17.gateway-unavailable")
+					} else {
+						gw = g
+						w.Notes["c17.gateway"] = g
+					}
+				}
+				if gw != nil {
+					if msg := c17Gateway(gw, []string{denom, denoms[plan%n]}, want, n); msg != "" {
+						w.Fail("C17", "REST gateway: %s (bank supply of %s is %s, locked %s)", msg, denom, bank[denom], locked)
+						return
+					}
+					w.Class("c17.rest-gateway-probe")
+					if locked.Sign() > 0 {
+						w.Class("c17.rest-gateway-probe-with-locked")
 					}
 				}
 			}
